@@ -14,6 +14,7 @@ class Deps:
         cmd = ["cargo", "build", "--offline", "-p", "vh", "--lib", "--message-format=json"]
         if features:
             cmd += ["--features", ",".join(features)]
+        cmd += vlib.cargo_extra()
         with vlib.Lock("cargo"):
             p = vlib.run(cmd, cwd=vlib.HARNESS, env={"CARGO_NET_OFFLINE": "true", "RUSTFLAGS": "-Awarnings"})
         if p.returncode != 0:
@@ -33,7 +34,7 @@ class Deps:
         missing = [v for v in WANT.values() if v not in self.externs]
         if missing:
             raise vlib.ToolError("could not locate rlibs for %s" % missing)
-        self.depdir = os.path.join(vlib.HARNESS, "target", "debug", "deps")
+        self.depdir = os.path.join(vlib.TARGET, "debug", "deps")
 
     def rustc_cmd(self, src, out, extra=()):
         cmd = ["rustc", "--edition", "2021", "--crate-type", "bin", "-C", "debuginfo=0", "-C", "opt-level=0", "-A", "warnings",
